@@ -413,7 +413,7 @@ func (s *slicer) freeVarLoad(fv *ssa.FreeVar) {
 		return
 	}
 	done := false
-	eachInstr(par, func(in ssa.Instruction) {
+	eachInstrRaw(par, func(in ssa.Instruction) {
 		mc, ok := in.(*ssa.MakeClosure)
 		if !ok || mc.Fn != fn || idx >= len(mc.Bindings) {
 			return
@@ -449,7 +449,7 @@ func (s *slicer) freeVar(fv *ssa.FreeVar) {
 		return
 	}
 	done := false
-	eachInstr(par, func(in ssa.Instruction) {
+	eachInstrRaw(par, func(in ssa.Instruction) {
 		mc, ok := in.(*ssa.MakeClosure)
 		if !ok || mc.Fn != fn || idx >= len(mc.Bindings) {
 			return
@@ -470,8 +470,8 @@ func (s *slicer) fieldStores(a *ssa.FieldAddr) {
 	}
 	s.seenField[key] = true
 	n := 0
-	for _, f := range s.o.P.RepoFuncs {
-		eachInstr(f, func(in ssa.Instruction) {
+	for _, f := range s.o.P.AllFuncs {
+		eachInstrRaw(f, func(in ssa.Instruction) {
 			st, ok := in.(*ssa.Store)
 			if !ok {
 				return
@@ -594,7 +594,7 @@ func (s *slicer) call(c *ssa.Call, idx int) {
 			}
 		}
 		s.depth++
-		eachInstr(callee, func(in ssa.Instruction) {
+		eachInstrRaw(callee, func(in ssa.Instruction) {
 			ret, ok := in.(*ssa.Return)
 			if !ok {
 				return
